@@ -83,6 +83,16 @@ fn bulk_proof(ds: &[Digest], is: &[usize], st: &mut Stats) -> Out {
         .with_oracle(tree.nodes() == &rt[..], format!("from_digests of {} leafs: nodes differ from the sequential recomputation", n))
         .with_oracle(auth.as_ref().ok() == Some(&want_auth), format!("authentication_structure for {} indices of a {}-leaf tree is not the minimal node set (descending) recomputed from the leafs", is.len(), n));
     let Ok(p) = proof else { return o.with_oracle(false, "inclusion_proof_for_leaf_indices: Err although all indices are in range") };
+    // totality first, call by call (a panic inside one of them is named, not just reported for the whole op)
+    let threads = rayon::current_num_threads();
+    let pv = std::panic::catch_unwind(std::panic::AssertUnwindSafe(|| p.clone().verify(rt[1])));
+    if pv.is_err() {
+        return o.with_oracle(false, format!("MerkleTreeInclusionProof::verify PANICS on the honest proof for {} indices of a {}-leaf tree ({} worker threads)", is.len(), n, threads));
+    }
+    let pp = std::panic::catch_unwind(std::panic::AssertUnwindSafe(|| p.clone().into_authentication_paths().is_ok()));
+    if pp.is_err() {
+        return o.with_oracle(false, format!("MerkleTreeInclusionProof::into_authentication_paths PANICS on the honest proof for {} indices of a {}-leaf tree ({} worker threads)", is.len(), n, threads));
+    }
     let (vr, vf) = verify_reply(p.tree_height, &p.indexed_leafs, &p.authentication_structure, rt[1], st);
     let (pr, pf) = paths_reply(p.tree_height, &p.indexed_leafs, &p.authentication_structure, st);
     let honest: Vec<Vec<Digest>> = is.iter().map(|&i| honest_path(&rt, n, i)).collect();
